@@ -1,6 +1,7 @@
 //! gv-run: reads jobs (S-expressions, one per top-level form) from a file, runs each against
 //! garble_lang (built from /repo's working tree with the verif_hooks feature) and prints one
 //! result line `(<id> <payload>)` per job.  Every library call runs under catch_unwind.
+mod builder;
 mod circ;
 mod sexp;
 
@@ -13,6 +14,7 @@ fn run_job(job: &Sexp) -> String {
         "reg" => circ::job_reg(job),
         "regalloc" => circ::job_regalloc(job),
         "compile" => circ::job_compile(job),
+        "builder" => builder::job_builder(job),
         k => format!("(unknown-kind {k})"),
     }
 }
